@@ -166,9 +166,13 @@ class _Inline(_InternalNode):
         def reserve_prefixed(name: str) -> str:
             if not name:
                 return name
-            return scope.var.reserve(
-                scope.var.maybe_enum(f"{scope.node[self]}__{name}")
-            )
+            base = f"{scope.node[self]}__{name}"
+            candidate = scope.var.maybe_enum(base)
+            # The enumerated name of one inner name may be the plain name of another one
+            # (a node ``T`` next to values ``T`` and ``T_0``) - keep enumerating until it is free.
+            while candidate in scope.var:
+                candidate = scope.var.enum(base)
+            return scope.var.reserve(candidate)
 
         def apply_rename(name: str) -> str:
             if name in input_names:
